@@ -234,7 +234,7 @@ pub fn run_tree_mode(ctx: &mut Ctx, bytes: &[u8], rename_mode: bool) -> Result<b
     }
     // a second project in the same session with its own copy of a dependency of the same name:
     // that copy is as external as the first one
-    if rename_mode && !dep_mods.is_empty() && c.chance(150) {
+    if !dep_mods.is_empty() && c.chance(150) {
         let alt = |ws_path: &str| wd.path.join("other").join(ws_path.trim_start_matches("/ws/"));
         for (pi, p) in sw.ws.packages.iter().enumerate() {
             let d = alt(&p.root);
@@ -257,7 +257,38 @@ pub fn run_tree_mode(ctx: &mut Ctx, bytes: &[u8], rename_mode: bool) -> Result<b
         let df = dep_mods[c.below(dep_mods.len())];
         lsp.did_open(&alt_uri(df), &sw.ws.files[df].text);
         ctx.class("second project with a dependency of the same name");
-        for decl in sw.decls.iter().filter(|d| d.file == df && matches!(d.kind, DK::Fn | DK::Const | DK::Param)).take(3) {
+        // its imports resolve into its own copies, not into the first project's
+        let mut asked = 0;
+        for o in sw.occs.iter().filter(|o| o.file == f2 && o.tier == OccTier::Core && o.role == Role::Use) {
+            let Some(d) = o.expected else { continue };
+            let decl = &sw.decls[d];
+            if decl.file == o.file || sw.ws.files[decl.file].pkg == 0 || asked >= 6 {
+                continue;
+            }
+            asked += 1;
+            let Some(pos) = docs[o.file].pos_of((o.range.0 + o.range.1) / 2) else { continue };
+            ctx.eval();
+            let r = lsp.call("textDocument/definition", json!({"textDocument": {"uri": alt_uri(o.file)}, "position": {"line": pos.line, "character": pos.col}}), Duration::from_secs(20));
+            let Some(r) = r else { return Err(fail(lsp, "no answer to definition in the second project".into(), "no-answer")) };
+            let targets = r["result"].as_array().cloned().unwrap_or_default();
+            let ok = targets.len() == 1 && norm(targets[0]["uri"].as_str().unwrap_or("")) == norm(&alt_uri(decl.file));
+            if !ok {
+                return Err(fail(
+                    lsp,
+                    format!(
+                        "in a second project opened in the same session `{}` at {}:{}..{} should resolve into that project's own copy {}, the server answers {}",
+                        o.text,
+                        sw.ws.files[o.file].path,
+                        o.range.0,
+                        o.range.1,
+                        alt(&sw.ws.files[decl.file].path).display(),
+                        clip(&r.to_string(), 300)
+                    ),
+                    "second-project-wrong-target",
+                ));
+            }
+        }
+        for decl in sw.decls.iter().filter(|_| rename_mode).filter(|d| d.file == df && matches!(d.kind, DK::Fn | DK::Const | DK::Param)).take(3) {
             let Some(pos) = docs[df].pos_of(decl.name_range.0) else { continue };
             ctx.eval();
             let pr = lsp.call("textDocument/prepareRename", json!({"textDocument": {"uri": alt_uri(df)}, "position": {"line": pos.line, "character": pos.col}}), Duration::from_secs(20));
